@@ -1207,6 +1207,9 @@ func (vx *Vaxis) sendQueries() {
 	// Explicit width query
 	_, _ = vx.tw.WriteString("\x1b[H")
 	_, _ = fmt.Fprintf(vx.tw, explicitWidth, 1, " ")
+	// The position request is written directly to the terminal, it must
+	// not overtake the probe
+	_, _ = vx.tw.Flush()
 	_, col := vx.CursorPosition()
 	if col == 1 {
 		log.Debug("[capability] explicit width supported")
